@@ -72,7 +72,7 @@ func VerifTeardown() {
 	}
 	desc := "client script:"
 	for _, st := range script {
-		desc += " " + []string{"start-s1", "stop-s1", "stop-unknown", "terminate", "malformed", "bogus", "start-s2", "init-again", "start-without-payload"}[st]
+		desc += " " + []string{"start-s1", "stop-s1", "stop-unknown", "terminate", "malformed", "bogus", "start-s2", "init-again", "start-without-payload", "start-two-services"}[st]
 	}
 	verifLog(desc + "; upstream: " + verifItoa(nEvents) + " events then " + []string{"complete", "error", "disconnect", "stays open"}[upEnd])
 	go func() {
@@ -106,6 +106,9 @@ func VerifTeardown() {
 			case 8:
 				// an incomplete message: start without a payload
 				m = []byte(`{"type":"start","id":"s3"}`)
+			case 9:
+				// an operation over the websocket whose root fields belong to two services: refused
+				m = vClientMsg("start", "s4", `{ me { name } phones }`)
 			}
 			if !client.vSend(m) {
 				return
